@@ -23,6 +23,7 @@ import (
 // ---- fakes ------------------------------------------------------------------------------------------
 
 type fakeFeature struct {
+	idx  int // position in the scenario (feature ids may repeat)
 	id   uint64
 	cols []interface{}
 	geo  geom.Geometry
@@ -45,7 +46,7 @@ func resultPolygon(id uint64) geom.Polygon {
 }
 
 func buildFeature(idx int, f FeatSpec) *fakeFeature {
-	ff := &fakeFeature{id: f.ID, cols: []interface{}{int64(f.ID), fmt.Sprintf("name-%d", f.ID), nil, 3.5}}
+	ff := &fakeFeature{idx: idx, id: f.ID, cols: []interface{}{int64(f.ID), fmt.Sprintf("name-%d", f.ID), nil, 3.5}}
 	switch f.Kind {
 	case "polygon":
 		ff.geo = markerPolygon(idx, 0)
@@ -137,7 +138,7 @@ func (s *fakeSource) ReadFeatures(out chan<- processing.Feature) {
 }
 
 type fakeTarget struct {
-	nilFor   func(featID uint64) (uint64, bool) // the flagged id this target expects as a nil polygon for that feature
+	nilFor   func(featIdx int) (uint64, bool) // the flagged id this target expects as a nil polygon for that feature
 	tm       int
 	log      *eventLog
 	d        delayer
@@ -215,7 +216,7 @@ func (t *fakeTarget) WriteFeatures(in <-chan processing.Feature) {
 			if orig == nil || t.nilFor == nil {
 				return 0, false
 			}
-			return t.nilFor(orig.id)
+			return t.nilFor(orig.idx)
 		})
 		if !t.logLate {
 			t.log.add(e)
@@ -276,9 +277,9 @@ func runScenario(sc Scenario, watchdog time.Duration) Result {
 		ft := &fakeTarget{tm: t, log: evlog, d: delayer{rand.New(rand.NewSource(r.Int63())), sc.Delays.Target[t]},
 			finishUs: sc.Delays.Finish[t], logLate: sc.Delays.LogLate, byCols: byCols}
 		tmKey := fmt.Sprint(t)
-		ft.nilFor = func(featID uint64) (uint64, bool) {
-			for _, f := range sc.Features {
-				if f.ID == featID && f.Kind == "polygon" && len(f.Parts) == 1 {
+		ft.nilFor = func(featIdx int) (uint64, bool) {
+			if featIdx >= 0 && featIdx < len(sc.Features) {
+				if f := sc.Features[featIdx]; f.Kind == "polygon" && len(f.Parts) == 1 {
 					if ids := f.Parts[0][tmKey]; len(ids) == 1 && ids[0]&nilPolyFlag != 0 {
 						return ids[0], true
 					}
